@@ -4,6 +4,9 @@ proof side    : Props/C07.lean (findSpan_some_correct, findSpan_unique, basis_su
                 basisFuns_eq_coxDeBoor, evalSpline1D_eq_sum, evalSpline1D_right_end, entrypoints, evalSpline2D_eq_tensor,
                 cubic_eq_general, cuFindSpan_correct, cubic_same_cell, cubic_path_eq_general_path(_2d), ders_is_derivative,
                 evalSpline1D_der_is_derivative, periodic_shift, periodic_ends_equal)
+                Props/C07Gen3.lean (tie by translation of the uniform-cubic kernels, Generated/CubicUniformGen.lean regenerated on every
+                run: gen_cu_find_span_eq, gen_cu_basis_funs(_1st_der)_eq, gen_cu_eval_spline_1d_eq (generated = Model/CubicUniform
+                with trunc := pyInt = truncation toward zero), pyInt_spec, gen_cu_eval_eq_general_path)
 correspondence: every public entry point of pygyro/splines (Spline1D.eval scalar/array, eval_vector, BSplines[i],
                 Spline2D.eval scalar/cross, eval_vector, all (der1,der2)) and the raw nu_* / cu_* kernels, against the
                 exact-rational Lean models (Drivers/C07.lean); floats compared through common.close with the running
@@ -823,7 +826,9 @@ def run(chk):
     common.run_translator(chk, 'translate_pure.py', '--only', 'findspan')
     common.run_translator(chk, 'translate_pure.py', '--only', 'basisfuns')
     common.run_translator(chk, 'translate_pure.py', '--only', 'eval1d')
-    chk.proof_side(build=not getattr(chk, 'no_build', False), extra_props=('C07Gen', 'C07Gen2'))
+    # Props/C07Gen3.lean: the uniform-cubic kernels (Generated/CubicUniformGen.lean, `int(x)` = truncation toward zero)
+    common.run_translator(chk, 'translate_pure.py', '--only', 'cueval')
+    chk.proof_side(build=not getattr(chk, 'no_build', False), extra_props=('C07Gen', 'C07Gen2', 'C07Gen3'))
     drv = common.LeanDriver('C07.lean')
     rng = chk.rng
     try:
